@@ -738,6 +738,8 @@ func (p *Parser) parseContentLength() (err error) {
 				break
 			}
 		}
+		// optional whitespace around the value may also be a tab.
+		cl = textproto.TrimString(cl)
 		l, err := strconv.ParseInt(cl, 10, 63)
 		if err != nil {
 			return fmt.Errorf("%s %q", "bad Content-Length", cl)
